@@ -114,7 +114,8 @@ pub fn static_cost(table: &Table, prog: &Prog) -> u64 {
 
 fn cost(p: &Prog, trig: &[u64; N_ITEMS]) -> u64 {
     match p {
-        Prog::Set { item, .. } | Prog::Update { item, .. } | Prog::Remove { item, .. } | Prog::Clear { item } => {
+        Prog::Wrap { inner, .. } => 1u64.saturating_add(cost(inner, trig)),
+        Prog::Set { item, .. } | Prog::Update { item, .. } | Prog::Remove { item, .. } | Prog::Clear { item } | Prog::Transform { item, .. } => {
             1u64.saturating_add(trig[(*item as usize).min(N_ITEMS - 1)])
         }
         Prog::Get { .. } | Prog::Effect { .. } | Prog::Fail | Prog::Stop => 1,
